@@ -2,6 +2,7 @@
   Proofs.C03ExtStage — every stage the extended oracle speaks about, pipelines of them, `$facet`.
 -/
 import Proofs.C03ExtFields
+import Proofs.C03ExtBucket
 
 namespace MongoModel.Pipe.Proofs
 open MongoModel MongoModel.Pipe MongoModel.Spec MongoModel.Spec.Pipe
@@ -37,7 +38,14 @@ theorem stageX_eq_spec (db : Db) (op : String) (opts : Val) (docs s : List Val)
       if_true] at hD hs
     have := replaceRoot_eq_spec opts docs s hD hs
     simpa [simpleStage] using this
-  · simp only [stageReasonsX, specStageX, h1, h2, hb, h4, Bool.false_eq_true, if_false] at hD hs
+  by_cases h5 : op = "$bucket"
+  · subst h5
+    simp only [stageReasonsX, specStageX, show ¬ ("$bucket" = "$group") by decide,
+      show ¬ ("$bucket" = "$lookup") by decide, show ¬ ("$bucket" = "$replaceRoot") by decide, hb,
+      Bool.false_eq_true, if_false, if_true] at hD hs
+    have := bucket_eq_spec opts docs s hD hs
+    simpa [simpleStage] using this
+  · simp only [stageReasonsX, specStageX, h1, h2, hb, h4, h5, Bool.false_eq_true, if_false] at hD hs
     exact stage_eq_spec db op opts docs s hD hs
 
 theorem specStageX_not_facet (db : Db) (opts : Val) (docs : List Val) :
